@@ -5,13 +5,13 @@
    NOT covered: the root sequent of a top-level `prc` declaration (known finding K1: the
    implementation does not check it) - the sequents of a prc are independent if its root is;
    C06_refuted_prc_root is the witness that the root can fail.
-   Premise env_moded_b: the mode recorded for a type definition is the mode of its body (established
-   by the parser; evaluated on every parsed program by the executable oracle of the check). *)
+   No premise: that the mode recorded for a type definition is the mode of its body is checked by
+   sanity_typedefs since the fix of F23. *)
 Require Import Grits.Base Grits.Forms Grits.Expand Grits.Tc Grits.TcTop
                Grits.spec.Linear Grits.spec.Sequents Grits.spec.Indep
                Grits.spec.Oracle Grits.proofs.IndepTop Grits.proofs.OracleProofs Grits.proofs.Witnesses.
 
-Theorem C06_program : forall p p', env_moded_b (p_types p) = true -> typecheck p = Accept p' -> IndepProgram p p'.
+Theorem C06_program : forall p p', typecheck p = Accept p' -> IndepProgram p p'.
 Proof. exact tc_indep_program. Qed.
 
 Theorem C06_refuted_prc_root :
@@ -25,7 +25,7 @@ Proof. exact k1_refutes. Qed.
 Theorem C06_oracle_sequent_exact : forall D s,
   (independent_b s = true <-> independent s) /\ (shift_legal_b D s = true <-> shift_legal D s).
 Proof. exact (fun D s => conj (independent_b_iff s) (shift_legal_b_iff D s)). Qed.
-Theorem C06_oracle_agrees : forall p p', env_moded_b (p_types p) = true -> typecheck p = Accept p' ->
+Theorem C06_oracle_agrees : forall p p', typecheck p = Accept p' ->
   indep_program_v p = IndepOk \/ exists n, indep_program_v p = IndepK1 n.
 Proof. exact ind_oracle_agrees. Qed.
 
@@ -36,7 +36,7 @@ Example C06_example_sequents :
   map (fun ff => length (fun_sequents ex_p ex_p' (fst ff) (snd ff))) (combine (p_funs ex_p) (p_funs ex_p')) = [9; 6].
 Proof. exact ex_sequents. Qed.
 Example C06_example_independent : IndepProgram ex_p ex_p'.
-Proof. exact (tc_indep_program _ _ ex_moded ex_accepted). Qed.
+Proof. exact (tc_indep_program _ _ ex_accepted). Qed.
 
 Print Assumptions C06_program.
 Print Assumptions C06_refuted_prc_root.
